@@ -145,6 +145,13 @@ def monOp (op : String) (args : List String) : Option String :=
     let (t, ts) ← pNat ts
     let (u, _) ← pNat ts
     some (if u ≤ t then "ok" else "viol C10-total-covers")
+  | "mon_weights_epoch" => do
+    -- C10 for every epoch: <lp> <epoch> <total weight in effect> <sum of the users' weights in effect>
+    let (_, ts) ← pTok args
+    let (_e, ts) ← pNat ts
+    let (t, ts) ← pNat ts
+    let (u, _) ← pNat ts
+    some (if u ≤ t then "ok" else "viol C10-total-covers")
   | "mon_no_pos_no_weight" => do
     let (xs, _) ← pRepeat pBit 4 args
     match xs with
